@@ -23,6 +23,8 @@ def main():
             continue
         dst = os.path.join(OUT, sid)
         os.makedirs(dst, exist_ok=True)
+        if os.path.exists(os.path.join(src, "note.md")) and not os.path.exists(os.path.join(src, "notes.md")):
+            shutil.copy(os.path.join(src, "note.md"), os.path.join(src, "notes.md"))
         for f in ("patch.diff", "demo.py", "notes.md"):
             if os.path.exists(os.path.join(src, f)):
                 shutil.copy(os.path.join(src, f), os.path.join(dst, f))
@@ -65,11 +67,12 @@ def main():
             f2 = (f2 or f1) + " (" + note + ")"
         lines.append("| %s | %s | %s | %s | %s | %s |" % (m["id"], m["breaks_property"], f1, f2, sig, (m.get("needs_to_manifest") or "").replace("|", "/").replace("\n", " ")[:260]))
     # summary per round
-    rounds = {"1 (A,B)": "AB", "2 (C,D)": "CD", "3 (E,F)": "EF"}
+    ENGINE = "C01 C02 C03 C04 C05 C06 C07 C10 C12 C14".split()
+    rounds = {"1 (A,B)": ("AB", None), "2 (C,D)": ("CD", None), "3 (E,F; engine properties)": ("EF", True), "4 (E,F; the other ten)": ("EF", False)}
     lines += ["", "## Summary", "", "| round | seeds kept | caught on first run | caught now |", "|---|---|---|---|"]
-    for rn, letters in rounds.items():
+    for rn, (letters, eng) in rounds.items():
         ms = [json.load(open(mp)) for mp in sorted(glob.glob(os.path.join(OUT, "C*", "meta.json")))]
-        ms = [m for m in ms if m["id"][-1] in letters]
+        ms = [m for m in ms if m["id"][-1] in letters and (eng is None or (m["breaks_property"] in ENGINE) == eng)]
         def runs_of(m):
             return sorted(m.get("check_runs", []), key=lambda r: r.get("eval_file", ""))
         first = sum(1 for m in ms if runs_of(m) and runs_of(m)[0].get("caught"))
